@@ -26,7 +26,8 @@ type c07Case struct {
 	LocalQ  bool          `json:"requestor_has_all"`
 	Needed  int           `json:"needed"`
 	Variant string        `json:"variant,omitempty"`
-	Reqs    int           `json:"requests,omitempty"` // sequential requests served by the same instances (default 1)
+	Reqs    int           `json:"requests,omitempty"`                     // sequential requests served by the same instances (default 1)
+	Prefix  int           `json:"requestor_holds_first_blocks,omitempty"` // the requestor holds the first K blocks of a chain, so its request asks the responder to skip them; only the responder's count is judged
 }
 
 func c07Placements() []string {
@@ -49,7 +50,69 @@ func blockRoots(v []harness.Visit) int {
 	return n
 }
 
+// c07RunPrefix: a responder-side budget N on a 5-block chain whose first K blocks the requestor already holds
+// (its request carries do-not-send-first-blocks K): the responder still loads at most N blocks in all.
+func c07RunPrefix(cs c07Case) (sig, what string) {
+	d := harness.Build(cs.Shape, "")
+	sel := findSel(cs.Sel)
+	split := make(harness.Split, len(cs.Shape.Blocks))
+	for i := range split {
+		split[i] = 2
+		if i < cs.Prefix {
+			split[i] = 3
+		}
+	}
+	var ropts []gsimpl.Option
+	var rHook uint64
+	if cs.Place == "resp-global" {
+		ropts = append(ropts, gsimpl.MaxLinksPerIncomingRequests(cs.Budget))
+	} else {
+		rHook = cs.Budget
+	}
+	mdCount, reads := 0, 0
+	var panicked string
+	s := vsched.Run(vsched.Config{Fast: true}, func() {
+		f := harness.NewFixture(false)
+		qs, rs := d.Stores(split)
+		rs.Instrument = true
+		q := f.AddNode(peer.ID("Q"), qs)
+		r := f.AddNode(peer.ID("R"), rs, ropts...)
+		if rHook > 0 {
+			r.GS.RegisterIncomingRequestHook(func(p peer.ID, rq graphsync.RequestData, ha graphsync.IncomingRequestHookActions) {
+				ha.MaxLinks(rHook)
+			})
+		}
+		q.Request(f, r.ID, d.Root, sel.Node, harness.MkID(1))
+		vsched.Quiesce()
+		for _, w := range f.Net.Wire {
+			if w.From == r.ID {
+				for _, rsp := range w.Msg.Responses() {
+					mdCount += int(rsp.Metadata().Length())
+				}
+			}
+		}
+		reads = rs.Calls("read")
+		f.Cancel()
+	})
+	if s.Panic != nil {
+		panicked = fmt.Sprint(s.Panic)
+	}
+	detail := fmt.Sprintf("chain of %d blocks, the requestor holds the first %d (asks to skip them), responder budget %d (%s): the responder listed %d links and read %d blocks from its store", len(cs.Shape.Blocks), cs.Prefix, cs.Budget, cs.Place, mdCount, reads)
+	switch {
+	case panicked != "":
+		return "panic", detail + ": " + panicked
+	case uint64(mdCount) > cs.Budget || uint64(reads) > cs.Budget:
+		return "responder-loaded-more-than-budget/requestor-holds-prefix", detail
+	case uint64(len(cs.Shape.Blocks)) > cs.Budget && uint64(mdCount) < cs.Budget:
+		return "responder-stopped-before-budget/requestor-holds-prefix", detail
+	}
+	return "", ""
+}
+
 func c07Run(cs c07Case) (sig, what string) {
+	if cs.Prefix > 0 {
+		return c07RunPrefix(cs)
+	}
 	n := cs.Reqs
 	if n == 0 {
 		n = 1
@@ -284,6 +347,24 @@ func runC07(c *core.Ctx) {
 					what = what[:600] + "…"
 				}
 				c.Violate(sig+"/"+cs.Variant, what, cs)
+			}
+		}
+	}
+	chain5 := harness.Shape{Name: "chain5", Blocks: []harness.BlockSpec{{Edges: []harness.Edge{{To: 1}}}, {Edges: []harness.Edge{{To: 2}}}, {Edges: []harness.Edge{{To: 3, Form: harness.Inline}}}, {Edges: []harness.Edge{{To: 4}}}, {}}}
+	for _, place := range []string{"resp-global", "resp-hook"} {
+		for k := 1; k <= 3; k++ {
+			for b := uint64(1); b <= 5; b++ {
+				idx++
+				if !c.Mine(idx) {
+					continue
+				}
+				cs := c07Case{Shape: chain5, Sel: "all-d10", Place: place, Budget: b, Prefix: k, Needed: 5, Variant: "requestor-holds-prefix"}
+				sig, what := c07Run(cs)
+				c.Res.Evaluations++
+				c.Class(fmt.Sprintf("%s requestor-holds-prefix", place))
+				if sig != "" {
+					c.Violate(sig, what, cs)
+				}
 			}
 		}
 	}
